@@ -3,7 +3,10 @@ package main
 func init() {
 	register("C01", "Decided: register tables, no-operand opcode table, condition codes (T-rules); not decided: form selection on concrete operands.",
 		ruleT1, ruleT2, ruleT3)
+	register("C06", "", ruleT7, ruleT10Expr)
+	register("C12", "", ruleT10Layout)
 	register("C07", "", ruleT11, ruleE7)
+	register("C08", "", ruleT8, ruleP4)
 	register("C09", "", ruleE9)
 	register("C10", "", ruleE1, ruleE2)
 	register("C13", "", ruleE6)
